@@ -473,6 +473,14 @@ def _cold_remove_conc(inp, obs):
     return False
 
 
+def _target(inp, o):
+    """the ref an operation compares/acts on, per the specification, in the initial state"""
+    if o["op"] == "remove":
+        return o["n"]
+    f = _spec_follow(_init_view(inp), o["n"])
+    return f[1] if f[0] == "ok" else o["n"]
+
+
 def finding_matches(fid, inp, obs, why):
     if isinstance(obs, Err):
         return False
@@ -480,17 +488,31 @@ def finding_matches(fid, inp, obs, why):
         # remove_if_equals reports success but _remove_packed_ref returned early because
         # self._packed_refs had never been loaded: the packed entry (and so the ref) survives
         return _cold_remove_seq(inp, obs) if inp["kind"] == "seq" else _cold_remove_conc(inp, obs)
-    if inp["kind"] != "conc":
+    if inp["kind"] != "conc" or _cold_remove_conc(inp, obs):
         return False
+    a, b = inp["ops"]
+    pk0 = _packed0(inp)
     if fid == "C37-interleaved-lost-update":
-        # the two updaters' check..write windows overlap: check-then-put is not atomic (no lock file)
-        return _windows_overlap(obs["trace"]) and not _cold_remove_conc(inp, obs)
-    if fid == "C37-stale-packed-cache":
-        # serial updaters, but the one that runs second had loaded packed-refs before the first one rewrote it
-        if _windows_overlap(obs["trace"]) or _cold_remove_conc(inp, obs):
+        # the two updaters' check..write windows overlap (check-then-put is not atomic, no lock file) and they
+        # act on the same ref, or both rewrite packed-refs (two removals of packed refs)
+        if not _windows_overlap(obs["trace"]):
             return False
-        first = [p for p, eff in obs["trace"] if eff]
-        return bool(first) and inp["warm"][1 - first[0]]
+        both_repack = (a["op"] == "remove" and b["op"] == "remove"
+                       and pk0[a["n"]] is not None and pk0[b["n"]] is not None)
+        return _target(inp, a) == _target(inp, b) or both_repack
+    if fid == "C37-stale-packed-cache":
+        # serial updaters; the one that runs second had loaded packed-refs before the first one REMOVED the
+        # packed ref that the second one then compares with / looks up
+        if _windows_overlap(obs["trace"]):
+            return False
+        order = [p for p, eff in obs["trace"] if eff]
+        if not order:
+            return False
+        first = order[0]
+        o1, o2 = inp["ops"][first], inp["ops"][1 - first]
+        return (inp["warm"][1 - first] and o1["op"] == "remove" and obs["t"][first] is True
+                and pk0[o1["n"]] is not None and _target(inp, o2) == o1["n"]
+                and (o2["op"] == "add" or o2.get("old") is not None))
     return False
 
 
@@ -597,7 +619,7 @@ def _interleavings(ka, kb):
 
 def _conc_table():
     stores = [([], []), ([[X, ["sha", 1]]], []), ([], [[X, 1]]), ([[X, ["sha", 1]]], [[X, 2]]),
-              ([[0, ["sym", X]], [X, ["sha", 1]]], [[Y, 2]])]
+              ([[0, ["sym", X]], [X, ["sha", 1]]], [[Y, 2]]), ([], [[X, 1], [Y, 2]])]
     ops_a = [{"op": "set", "n": X, "old": ["sha", 1], "new": 2},
              {"op": "remove", "n": X, "old": ["sha", 1]},
              {"op": "add", "n": X, "new": 2},
